@@ -118,6 +118,16 @@ CLAIMED["C08"] = ("Partial proof of the SM2 key-agreement glue in sm2/sm2_keyexc
  "Trusted: math/big and crypto/elliptic ghost-valued contracts, (*KeyExchange).sign, sm3.Kdf length contract, bigIntToBytes/FillBytes value contract.",
  "DESIGN.md §0.2, §4 C08")
 
+CLAIMED["C11"] = ("Partial proof, of the seekable stream cipher (EEA / XORKeyStream, XORKeyStreamAt) over an ABSTRACT keystream: with the word generator assumed to produce exactly the next keystream words "
+ "(ghost position and key/iv identity per generator state), a representation invariant of the cipher object (generator at the round boundary used + xLen, the buffer holds keystream bytes used..used+xLen-1, "
+ "checkpoint k is the generator state at byte position k * bucketSize, bucket size a multiple of the round size, checkpoints cover every boundary below the generator position) is established by the constructors "
+ "and preserved by reset, seek, appendState, XORKeyStream and XORKeyStreamAt; therefore, for every history of sequential and positioned calls, any lengths, any absolute offsets forwards or backwards and any bucket size, "
+ "each call returns dst[j] = src[j] xor keystream byte (offset + j), in place or into a separate buffer, advances the position by len(src), never indexes out of range and terminates (loop measures). "
+ "Not decided: the keystream itself (LFSR, bit reorganisation, F, S-boxes need bit-vector reasoning; assembly and generic generators are assumed), 128-EIA3 and the ZUC-256 MACs including the tail handling "
+ "(known defect D8 of DESIGN.md section 5 has no check), stream positions at or above 2^62 bytes.",
+ "Trusted: genKeyStream/genKeyStreamRev32 (assumed contracts), newZUCState, subtle.XORBytes, alias.InexactOverlap; callers do not pass slices aliasing the object's internal buffer.",
+ "DESIGN.md §0.2, §4 C11")
+
 NOT_APPLICABLE = {
  "C02": "Not reached by the contract technique in this build: the SM4 round function (S-box tables, 32-bit rotations, XOR network) needs the bit-vector mode of the verifier, which exists only as a skeleton; the AES-NI/AVX assembly tiers are outside any Go-level contract. The Go wrappers around the SM4 assembly that cipher modes use are covered under C03. No other technique was substituted.",
  "C04": "GCM/CCM: table-driven GHASH and the fused SM4-GCM assembly need bit-vector reasoning over carry-less multiplication that the arith-mode VC generator cannot express; CCM's Go glue was planned but not reached in this build.",
